@@ -238,15 +238,44 @@ def gen_lean(T):
     return "\n".join(L) + "\n"
 
 
+GEN_PATH_B = os.path.join(VERIF, "lean", "LitexModel", "Generated", "ClockRangesB.lean")
+
+
+def gen_lean_b(T):
+    """GW5A and Efinix Trion tables (session 2)."""
+    L = []
+    A = L.append
+    A("import LitexModel.Clock.Gw5a")
+    A("import LitexModel.Clock.Efinix")
+    A("/- GENERATED by harness/props/c20.py regen() from GW5APLL (gowin_gw5a.py) and TRIONPLL (efinix.py) — do not edit. -/")
+    A("namespace Litex.Clock.Gen")
+    A("")
+    A("def gw5a : List (String × WDev) := [")
+    A(",\n".join('  ("%s", { pfdMin := %s, pfdMax := %s, vcoMin := %s, vcoMax := %s, nmax := %d })' % (
+        d["name"], lq(d["pfd"][0]), lq(d["pfd"][1]), lq(d["vco"][0]), lq(d["vco"][1]), d["nmax"]) for d in T["gw5a"]) + "]")
+    A("")
+    t = T["trion"]
+    cph = ", ".join("(%s, [%s])" % (k, ", ".join(str(x) for x in v)) for k, v in sorted(t["c_phase"].items(), key=lambda kv: int(kv[0])))
+    A("def trion : TDev := { vcoMin := %s, vcoMax := %s, pfdMin := %s, pfdMax := %s, pllMin := %s, pllMax := %s, "
+      "c0Lo := %d, c0Hi := %d, cPhase := [%s], nmax := %d }" % (
+          lq(t["vco"][0]), lq(t["vco"][1]), lq(t["pfd"][0]), lq(t["pfd"][1]), lq(t["pll"][0]), lq(t["pll"][1]),
+          t["c0"][0], t["c0"][1] + 1, cph, t["nmax"]))
+    A("")
+    A("end Litex.Clock.Gen")
+    return "\n".join(L) + "\n"
+
+
 def regen():
-    text = gen_lean(tables())
-    old = open(GEN_PATH).read() if os.path.exists(GEN_PATH) else None
-    if old != text:
-        os.makedirs(os.path.dirname(GEN_PATH), exist_ok=True)
-        with open(GEN_PATH, "w") as f:
-            f.write(text)
-        return True
-    return False
+    T = tables()
+    changed = False
+    for path, text in ((GEN_PATH, gen_lean(T)), (GEN_PATH_B, gen_lean_b(T))):
+        old = open(path).read() if os.path.exists(path) else None
+        if old != text:
+            os.makedirs(os.path.dirname(path), exist_ok=True)
+            with open(path, "w") as f:
+                f.write(text)
+            changed = True
+    return changed
 
 
 # ------------------------------------------------------------------------------------------------------------------
@@ -376,6 +405,46 @@ def port_expr(inst, kind, name):
 def comb_drivers(o, sig):
     from migen.fhdl.structure import _Assign
     return [st.r for st in E._comb(o) if isinstance(st, _Assign) and st.l is sig]
+
+
+def parse_model_emit(text):
+    """'key=K:value ...' (Driver/C20.lean sEmit) -> {key: matcher or value}."""
+    out = {}
+    for w in text.split():
+        key, _, rest = w.partition("=")
+        kind, _, val = rest.partition(":")
+        fr_ = lambda v: F(int(v.split("/")[0]), int(v.split("/")[1]))
+        if kind == "I":
+            out[key] = int(val)
+        elif kind == "F":
+            out[key] = E.Approx(fr_(val))
+        elif kind == "N":
+            out[key] = E.Number(fr_(val))
+        elif kind == "S":
+            out[key] = val
+        elif kind == "FS":
+            out[key] = E.Approx(fr_(val), as_str=True)
+        elif kind == "TR":
+            out[key] = E.NearInt(fr_(val))
+        elif kind == "T":
+            out[key] = val
+        elif kind == "A":
+            out[key] = E.AnyStr()
+        else:
+            out[key] = "?unparsable:" + w
+        if key in out and w.count("=") == 0:
+            out[key] = "?unparsable:" + w
+    return out
+
+
+def compare_model_emit(fam, c, real, text):
+    """the Lean model of do_finalize (complete item list) against the items read back from the real Instance."""
+    model = parse_model_emit(text)
+    got = dict(real.get("emit") or {})
+    for k in getattr(fam, "EMIT_ONLY_REAL", ()):
+        got.pop(k, None)
+    d = E.diff_dicts(model, got, "emitted items (model vs real)")
+    return "; ".join(d[:3]) if d else None
 
 
 def emit_viol(want, real):
@@ -854,6 +923,7 @@ def py_round(x):
 class Ecp5:
     fam = "ecp5"
     N2L = {0: "P", 1: "S", 2: "S2", 3: "S3"}
+    EMIT_ONLY_REAL = ("a_BEL",)          # placement attribute handed through (checked by the oracle, not modelled)
 
     def __init__(self, T):
         self.d = T["ecp5"]
@@ -1279,9 +1349,13 @@ def run_case(fam, c, model_line):
     if viol:
         rec["real"] = jsonable(real)
     if model_line is not None and not borderline:
+        model_line, _, model_emit = model_line.partition(" || ")
         try:
             model = fam.parse(c, model_line)
             dis = fam.compare(c, real, model)
+            if dis is None and model_emit and real["status"] == "ok" and real.get("emit") is not None:
+                dis = compare_model_emit(fam, c, real, model_emit)
+                rec["emit_compared"] = True
         except Exception as e:
             dis = "unparsable model answer %r (%r)" % (model_line[:80], e)
         if dis is None and first is not None and real["status"] == "ok" and hasattr(fam, "first_key"):
@@ -1365,7 +1439,7 @@ class Ice40:
 
     def lean_line(self, c):
         f, m = c["out"]
-        return "ice40 %s %s 0 1 %s" % (qs(c["clkin"]), qs(f), qs(m))
+        return "ice40 %s %s 0 1 %s %s" % (qs(c["clkin"]), qs(f), qs(m), "pad" if c.get("prim") == "SB_PLL40_PAD" else "core")
 
     def real(self, c):
         from migen import Signal
@@ -1817,7 +1891,9 @@ class NxOscFin:
         self.d = T["nxosc"]
 
     def lean_line(self, c):
-        return "nxosc %s %s" % (qs(c["hfsdc"][0]), qs(c["hfsdc"][1]))
+        hf = c.get("hf") or (1.0, 0.0)
+        return "nxoscfin %d %s %s %s %s %d" % (int(bool(c.get("hf"))), qs(hf[0]), qs(hf[1]), qs(c["hfsdc"][0]), qs(c["hfsdc"][1]),
+                                                int(bool(c.get("lf"))))
 
     def real(self, c):
         from litex.soc.cores.clock.lattice_nx import NXOSCA
@@ -2143,7 +2219,8 @@ class Gw1n:
 
     def lean_line(self, c):
         outs = " ".join("%s %s %s" % (qs(f), qs(p), qs(m)) for f, p, m in c["outs"])
-        return "gw1n %s %s %s %d %s" % (c["dev"], qs(c["clkin"]), qs(c["vm"]), len(c["outs"]), outs)
+        _, _, _, devname, device = next(g for g in GOWIN if g[0] == c["dev"])
+        return "gw1n %s %s %s %d %s %s %s" % (c["dev"], qs(c["clkin"]), qs(c["vm"]), len(c["outs"]), outs, devname, device)
 
     def real(self, c):
         from migen import Signal
@@ -2387,7 +2464,7 @@ class GwOsc:
         return F(210e6) if c["device"] in ["GW1N-4", "GW1NR-4", "GW1N-4B", "GW1NR-4B", "GW1NRF-4B", "GW1N-4C", "GW1NR-4C"] else F(250e6)
 
     def lean_line(self, c):
-        return "gwosc %s %s %s" % (qs(self.osc(c)), qs(c["f"]), qs(c["m"]))
+        return "gwosc %s %s %s %s" % (qs(self.osc(c)), qs(c["f"]), qs(c["m"]), c["device"])
 
     def real(self, c):
         from litex.soc.cores.clock.gowin_gw1n import GW1NOSC
@@ -2455,7 +2532,9 @@ class Gw5a:
         self.products = sorted({a * b for a in range(1, 64) for b in range(2, 128)})
 
     def lean_line(self, c):
-        return None
+        _, devname, dev = next(g for g in GW5A if g[0] == c["dev"])
+        outs = " ".join("%s %s %s" % (qs(f), qs(p), qs(m)) for f, p, m in c["outs"])
+        return "gw5a %s %s %s %d %s %s" % (c["dev"], qs(c["clkin"]), qs(c["vm"]), len(c["outs"]), outs, dev)
 
     def real(self, c):
         from migen import Signal
@@ -2491,10 +2570,111 @@ class Gw5a:
                 "cfg": cfg_numbers(cfg), "emit": emit, "wviol": wviol, "device": dev}
 
     def parse(self, c, line):
-        return None
+        w = line.split()
+        if w[0] != "ok":
+            return {"status": w[0]}
+        k = int(w[4])
+        per = [(int(w[5 + 3 * i]), int(w[6 + 3 * i]), int(w[7 + 3 * i])) for i in range(k)]
+        return {"status": "ok", "idiv": int(w[1]), "fdiv": int(w[2]), "mdiv": int(w[3]), "per": per}
 
     def compare(self, c, real, model):
+        if real["status"] != model["status"]:
+            return "status real=%s (%s) model=%s" % (real["status"], real.get("exc"), model["status"])
+        if real["status"] != "ok":
+            return None
+        for k in ("idiv", "fdiv", "mdiv"):
+            if real[k] != model[k]:
+                return "%s real=%s model=%s" % (k, real[k], model[k])
+        rp = [(real["cfg"]["odiv%d" % n], real["cfg"]["pe%d" % n], real["cfg"]["pe%d_fine" % n]) for n in range(len(c["outs"]))]
+        if rp != model["per"]:
+            return "(odiv, pe, pe_fine) real=%s model=%s" % (rp, model["per"])
         return None
+
+    def first_key(self, real):
+        return (real["idiv"], real["fdiv"], real["mdiv"])
+
+    def exact_search(self, c, fl):
+        """the search over exact rationals with float-borderline flags -> ('ok', (idiv,fdiv,mdiv)) | ('rejected',) |
+        ('crash',)   (independent of the Lean model: candidates from the window equations, not the triple loop)"""
+        d = self.devs[c["dev"]]
+        clkin, vm = F(c["clkin"]), F(c["vm"])
+        outs = [(F(f), F(p), F(m)) for f, p, m in c["outs"]]
+        lo, hi = d["vco"][0] * (1 + vm), d["vco"][1] * (1 - vm)
+        pmin, pmax = d["pfd"]
+        ints = is_int(clkin) and all(is_int(f) for f, _, _ in outs)
+        cands = []
+        crash = False
+        may_crash = any(f * (1 + F(1, 10 ** 6)) >= 2 * lo or f == 0 for f, _, _ in outs)
+        fouts = [(float(f), float(m)) for f, _, m in outs]
+        for idiv in range(1, 64):
+            pfd = clkin / idiv
+            ex = is_int(clkin) and int(clkin) % idiv == 0
+            if not (fl.cmp_le(pmin, pfd, ex, "pfd>=min") and fl.cmp_le(pfd, pmax, ex, "pfd<=max")):
+                continue
+            for fdiv in range(1, 64):
+                base = pfd * fdiv
+                m_lo = max(2, math.ceil(lo / base) - 1)
+                m_hi = min(127, math.floor(hi / base) + 1)
+                for mdiv in range(m_lo, m_hi + 1):
+                    vco = base * mdiv
+                    if not (fl.cmp_le(lo, vco, ex and vm == 0, "vco>=min") and fl.cmp_le(vco, hi, ex and vm == 0, "vco<=max")):
+                        continue
+                    if not may_crash:
+                        # float pre-filter: an output that misses its margin by more than 0.1 % away from any rounding tie
+                        # decides the candidate (rejected) without exact arithmetic and without any borderline flag
+                        vf, far = float(vco), False
+                        for ff, mf in fouts:
+                            xf = vf / ff
+                            if abs((xf - math.floor(xf)) - 0.5) > 1e-6 and round(xf) >= 1 and \
+                                    abs(vf / round(xf) - ff) / ff > mf * 1.001 + 1e-12:
+                                far = True
+                                break
+                        if far:
+                            continue
+                    okay, total = True, F(0)
+                    for (f, p, m) in outs:
+                        if f == 0:
+                            crash = True
+                            break
+                        x = vco / f
+                        if abs((x - math.floor(x)) - F(1, 2)) <= SLACK * max(x, 1) and not (ex and ints and x - math.floor(x) == F(1, 2)):
+                            fl._flag("vco/f within 2^-40 of a rounding tie")
+                        odiv = py_round(x)
+                        if odiv == 0:
+                            crash = True
+                            break
+                        diff = abs(vco / odiv - f) / f
+                        y = p * odiv / 360
+                        if y.denominator != 1 and abs((y - math.floor(y)) - F(1, 2)) <= SLACK * max(abs(y), 1) and y - math.floor(y) != F(1, 2):
+                            fl._flag("phase step within 2^-40 of a rounding tie")
+                        y8 = p * odiv * 8 / 360
+                        if abs((y8 - math.floor(y8)) - F(1, 2)) <= SLACK * max(abs(y8), 1) and y8 - math.floor(y8) != F(1, 2):
+                            fl._flag("fine phase step within 2^-40 of a rounding tie")
+                        if y != 0 and abs(y - round(y)) <= SLACK * abs(y) and y.denominator != 1:
+                            fl._flag("coarse phase step within 2^-40 of an integer")
+                        perr = abs(F(360) * py_round(y) / odiv - p) / 360
+                        if not fl.cmp_le(perr, m, perr == 0, "phase error", scale=1):
+                            okay = False
+                        if not fl.cmp_le(diff, m, diff == 0 and ex and ints, "margin", scale=1):
+                            okay = False
+                        total += diff
+                    if crash:
+                        return ("crash",)
+                    if okay:
+                        cands.append((total, (idiv, fdiv, mdiv), ex, vco))
+        if not cands:
+            return ("rejected",)
+        best = min(x[0] for x in cands)
+        first = next(x for x in cands if x[0] == best)
+        for x in cands:
+            if x[1] != first[1] and x[0] - best <= SLACK:
+                # an exact tie is decided identically by the float code when both VCOs are float-exact and either equal
+                # (same float computation) or both sums are exactly zero with integer frequencies
+                safe = x[0] == best and x[2] and first[2] and (x[3] == first[3] or (best == 0 and ints))
+                if not safe:
+                    fl._flag("two candidates with (nearly) equal diff sums")
+                    break
+        return ("ok", first[1])
 
     def out_checks(self, vco, f, p, m, slack_sign):
         """exact acceptance test of one output at this VCO; slack_sign=+1 tolerant, -1 robust."""
@@ -2517,6 +2697,10 @@ class Gw5a:
         pmin, pmax = d["pfd"]
         viol, region = [], None
         fl = Flags()
+        ex = self.exact_search(c, fl)
+        first = ex[1] if ex[0] == "ok" else None
+        if not fl.borderline and ex[0] != {"ok": "ok", "rejected": "rejected", "crash": "crash"}.get(real["status"]):
+            fl._flag("exact search %s vs real %s" % (ex[0], real["status"]))      # left to the robust checks below
         if real["status"] == "ok":
             idiv, fdiv, mdiv = real["idiv"], real["fdiv"], real["mdiv"]
             if not (1 <= idiv <= 64 and 1 <= fdiv <= 64 and 2 <= mdiv <= 128):
@@ -2576,11 +2760,13 @@ class Gw5a:
                     break
             if found:
                 viol.append("refused although idiv=%s fdiv*mdiv=%s satisfies the request" % found)
+        elif real["status"] == "crash" and ex[0] == "crash" and "ZeroDivisionError" in real.get("exc", ""):
+            pass           # an output above 2*VCO: round(vco/f) = 0 (out of every device's range; modelled as crash)
         else:
             viol.append("unexpected exception " + real.get("exc", ""))
         if viol:
             region = None
-        return viol, fl.borderline, fl.why, None, region
+        return viol, fl.borderline, fl.why, first, region
 
     def gen(self, rng):
         d = rng.choice(list(self.devs.values()))
@@ -2667,12 +2853,42 @@ class Trion:
         self.d = T["trion"]
 
     def lean_line(self, c):
-        return None
+        if not (0 <= c["fb"] < len(c["outs"])):
+            return None
+        outs = " ".join("%s %s" % (qs(f), qs(p)) for f, p in c["outs"])
+        return "trion %s %d %d %s" % (qs(c["clkin"]), c["fb"], len(c["outs"]), outs)
 
     def parse(self, c, line):
-        return None
+        w = line.split()
+        if w[0] != "ok":
+            return {"status": w[0]}
+        k = int(w[5])
+        return {"status": "ok", "N": int(w[1]), "M": int(w[2]), "O": int(w[3]), "cfb": int(w[4]), "cs": [int(x) for x in w[6:6 + k]]}
 
     def compare(self, c, real, model):
+        if real["status"] != model["status"]:
+            return "status real=%s (%s) model=%s" % (real["status"], real.get("exc"), model["status"])
+        if real["status"] != "ok":
+            return None
+        for k in ("N", "M", "O", "cs"):
+            if real[k] != model[k]:
+                return "%s real=%s model=%s" % (k, real[k], model[k])
+        if real["cs"][c["fb"]] != model["cfb"]:
+            return "Cfbk real=%s model=%s" % (real["cs"][c["fb"]], model["cfb"])
+        return None
+
+    def float_borderline(self, c):
+        """the code compares floats with == : the exact model is only comparable when every quantity that can take part
+        in a match is float-exact: integer output frequencies, and every exactly valid setting has an integer PFD."""
+        fin = F(c["clkin"])
+        if not is_int(fin) or any(not is_int(f) for f, _ in c["outs"]):
+            return "non-integer frequencies"
+        if any(F(p) != 0 and str(int(p)) not in self.d["c_phase"] for _, p in c["outs"] if F(p).denominator == 1) or \
+                any(F(p).denominator != 1 for _, p in c["outs"]):
+            return None          # KeyError path: exact
+        for (N, M, O, cfb, cs) in self.solutions(c):
+            if int(fin) % N != 0:
+                return "a valid setting has a non-integer PFD frequency"
         return None
 
     def c_list(self, phase):
@@ -2794,7 +3010,8 @@ class Trion:
             viol.append("unexpected exception " + real.get("exc", ""))
         if viol:
             region = None
-        return viol, False, None, None, region
+        why = self.float_borderline(c) if 0 <= c["fb"] < len(c["outs"]) else None
+        return viol, why is not None, why, None, region
 
     def gen(self, rng):
         d = self.d
@@ -2840,12 +3057,17 @@ class GateMate:
         pass
 
     def lean_line(self, c):
-        return None
+        if any(int(ph) != ph or ph < 0 for ph, _ in c["outs"]):
+            return None
+        outs = " ".join("%d %s" % (ph, qs(f)) for ph, f in c["outs"])
+        return "gatemate %s %s %d %d %d %d %s" % (qs(c["clkin"]), c["perf"], c["lj"], c["lr"], c["usr"], len(c["outs"]), outs)
 
     def parse(self, c, line):
-        return None
+        return {"status": line.split()[0]}
 
     def compare(self, c, real, model):
+        if real["status"] != model["status"]:
+            return "status real=%s (%s) model=%s" % (real["status"], real.get("exc"), model["status"])
         return None
 
     def real(self, c):
